@@ -442,7 +442,13 @@ func c04Whole(cs *vrt.Case, r *vrt.Rng) {
 	}
 	otk := (cs.Idx / 6) % 4
 	x, y := r.Big(int(c.Inputs[0].Type.Bits)), r.Big(int(c.Inputs[1].Type.Bits))
-	o := runYao(r, c, x, y, yaoOpts{ot: otk, kind: 2, record: true, stallWin: 30 * time.Second})
+	short := 0
+	if cs.Idx%4 == 2 {
+		// an entropy source that delivers its bytes in short reads
+		short = []int{1, 7, 16, 255, 100}[(cs.Idx/4)%5]
+		cs.Count("sessions_with_short_reading_entropy_source", 1)
+	}
+	o := runYao(r, c, x, y, yaoOpts{ot: otk, kind: 2, record: true, stallWin: 30 * time.Second, shortReads: short})
 	desc := map[string]any{"mode": "whole-circuit", "circuit": what, "ot": o.otName, "x": x.Text(16), "y": y.Text(16)}
 	cs.SetSample(desc)
 	if pi := firstPanic(o.g, o.e); pi != nil || o.g.err != nil || o.e.err != nil {
@@ -570,7 +576,13 @@ func c04Stream(cs *vrt.Case, r *vrt.Rng) {
 		src, srcName, gIn, eIn, progDesc = nsrc, file, g, e, "native-circuit family: "+nsrc
 		cs.Count("sessions_stream_native_circuit", 1)
 	}
-	o := runStream(r, src, nil, gIn, eIn, yaoOpts{ot: (cs.Idx / 6) % 3, kind: 2, record: true, stallWin: 30 * time.Second, srcName: srcName})
+	short := 0
+	if cs.Idx%4 == 1 {
+		// an entropy source that delivers its bytes in short reads
+		short = []int{255, 1, 16, 100, 7}[(cs.Idx/4)%5]
+		cs.Count("sessions_with_short_reading_entropy_source", 1)
+	}
+	o := runStream(r, src, nil, gIn, eIn, yaoOpts{ot: (cs.Idx / 6) % 3, kind: 2, record: true, stallWin: 30 * time.Second, srcName: srcName, shortReads: short})
 	desc := map[string]any{"mode": "streaming", "program": progDesc, "ot": o.otName, "g": clipStrings(gIn), "e": clipStrings(eIn)}
 	cs.SetSample(desc)
 	if pi := firstPanic(o.g, o.e); pi != nil || o.g.err != nil || o.e.err != nil {
